@@ -188,6 +188,10 @@ func genPred(r *hx.Rand, pool [][]byte, valid bool) ss.LogPredicate {
 		ref = ss.LogValueRef{Dynamic: true, Offset: uint64(4 + r.Intn(5))}
 	}
 	op := ss.Op(r.Intn(6))
+	if r.Chance(30) { // topic BytesEq predicates are what the node-side filter is built from
+		ref = ss.LogValueRef{Offset: uint64(r.Intn(4))}
+		op = ss.BytesEq
+	}
 	vp := ss.ValuePredicate{Op: op, IntArgs: []*big.Int{}, ByteArgs: [][]byte{}}
 	if op == ss.BytesEq {
 		var arg []byte
@@ -239,8 +243,19 @@ func genDef(r *hx.Rand, valid bool) (*ss.EventTriggerDefinition, [][]byte) {
 	if !valid && n > 0 {
 		bad = r.Intn(n)
 	}
+	usedTopic := map[uint64]bool{}
 	for i := 0; i < n; i++ {
-		d.LogPredicates = append(d.LogPredicates, genPred(r, pool, i != bad))
+		p := genPred(r, pool, i != bad)
+		if valid && p.LogValueRef.IsTopic() && p.ValuePredicate.Op == ss.BytesEq {
+			for tries := 0; usedTopic[p.LogValueRef.Offset] && tries < 8; tries++ {
+				p.LogValueRef.Offset = uint64(r.Intn(4))
+			}
+			if usedTopic[p.LogValueRef.Offset] {
+				p.ValuePredicate = ss.ValuePredicate{Op: ss.UintGte, IntArgs: []*big.Int{big.NewInt(0)}, ByteArgs: [][]byte{}}
+			}
+			usedTopic[p.LogValueRef.Offset] = true
+		}
+		d.LogPredicates = append(d.LogPredicates, p)
 	}
 	if !valid && n >= 2 && r.Chance(30) { // duplicate topic BytesEq
 		p := ss.LogPredicate{LogValueRef: ss.LogValueRef{Offset: uint64(r.Intn(4))}, ValuePredicate: ss.ValuePredicate{Op: ss.BytesEq, IntArgs: []*big.Int{}, ByteArgs: [][]byte{word(r, pool)}}}
